@@ -115,6 +115,21 @@ Case genBoolGp() {
   commonOpts(c);
   return c;
 }
+// tight general position: small coordinates, self-crossing polygons with many crossings whose features are only just 3
+// units apart - where rounding makes the engine repair self-intersections of its own output (FixSelfIntersects/DoSplitOp)
+Case genBoolTight() {
+  Case c;
+  int64_t R = G::oneOf(std::vector<int64_t>{60, 120, 250, 500, 1000});
+  Paths64 s, cl;
+  int ns = (int)G::range(1, 2);
+  for (int k = 0; k < ns; ++k) s.push_back(GEN::randomPath(5, 8, R));
+  if (G::coin()) cl.push_back(GEN::randomPath(3, 7, R));
+  c.p["subj"] = s; c.p["clip"] = cl;
+  c.p["subj_z"] = zLabels(c.p["subj"]); c.p["clip_z"] = zLabels(c.p["clip"]); c.p["open_z"] = zLabels(c.P("open"));
+  commonOpts(c);
+  if (G::chance(70)) c.i["zcb"] = G::range(1, 3);
+  return c;
+}
 Case genBoolDeg() {
   Case c;
   GEN::DegPool pool;
@@ -279,6 +294,7 @@ int main(int argc, char** argv) {
   H.property = "C15";
   H.parts.push_back({"bool_gp", genBoolGp, judgeBoolGp, nullptr, true});
   H.parts.push_back({"bool_deg", genBoolDeg, judgeBoolDeg, nullptr, true});
+  H.parts.push_back({"bool_tight", genBoolTight, judgeBoolGp, nullptr, true});
   H.parts.push_back({"boolD_gp", genBoolD, judgeBoolD, nullptr, true});
   H.parts.push_back({"offset", genOffset, judgeOffset, nullptr, true});
   H.parts.push_back({"rect", genRect, judgeRect, nullptr, true});
